@@ -10,9 +10,11 @@ structure MemtableM (K : Type) where
   entries : List (Entry K)
 deriving Repr
 
+/-- A super version references its memtables by id: memtables are shared (`Arc`) between history entries, so a write
+    to the active memtable is seen through every entry that holds it. -/
 structure SuperVersion (K : Type) where
-  active : MemtableM K
-  sealed : List (MemtableM K)      -- oldest first (`SealedMemtables::add` appends)
+  active : Nat
+  sealed : List Nat                -- oldest first (`SealedMemtables::add` appends)
   version : Version K
   seqno : Nat
 deriving Repr
